@@ -278,9 +278,16 @@ def run_scenarios(v, pid, wd, name, scenarios, chunk=150):
     """real resolver on the scenarios; TLC validation. Returns (lines, rejects: list of (line index, run, property))"""
     inp = os.path.join(wd, name + ".in.ndjson")
     out = os.path.join(wd, name + ".out.ndjson")
-    write_ndjson(inp, scenarios)
-    vh(["resolve", inp, out], timeout=1800)
-    obs = read_ndjson(out)
+    # a resolution that never returns (or kills the process) is data: the scenario is reported, the rest still runs
+    obs, crashes = wc.run_harness_lines("resolve", inp, out, scenarios, timeout=max(60, len(scenarios) // 8), max_crashes=3)
+    for idx, reason in crashes:
+        sc = scenarios[idx]
+        if pid == "C08" or "exit status" in reason:
+            v.violation("a resolution did not terminate, or took the process down (%s)" % reason,
+                        {"mode": sc["mode"], "questions": sc["questions"], "zones": wc.shrink(sc["zones"], 10),
+                         "table_size": len(sc["table"])})
+        else:
+            v.notes["non_terminating_resolutions_see_C08"] = v.notes.get("non_terminating_resolutions_see_C08", 0) + 1
     lines = []
     for o in obs:
         if o.get("ev") == "panic":
